@@ -439,10 +439,9 @@ def r4(ctx):
     # accessors return the like-named field
     for acc_name in ("request_method", "canonical_path", "body_sha256", "headers", "query_parameters"):
         a = ctx.fn("canonical::CanonicalRequest::" + acc_name)
-        s = a.slice([0])
-        frs = {fs for _, fs in s.fieldreads}
-        if frs != {(acc_name,)}:
-            yield VIOL("C01-R4", "accessor/" + acc_name, "accessor %s returns field(s) %s" % (acc_name, sorted(frs)), where=loc(a.j["span"]))
+        pr_ = accessor_problems(a, acc_name)
+        if pr_:
+            yield VIOL("C01-R4", "accessor/" + acc_name, "accessor %s does not hand back self.%s as stored: %s" % (acc_name, acc_name, "; ".join(pr_)), where=loc(a.j["span"]))
         else:
             yield PASS("C01-R4", "accessor/" + acc_name, "returns self.%s" % acc_name, [loc(a.j["span"])])
 
@@ -563,11 +562,18 @@ def r6(ctx):
     # SigV4Authenticator accessors return like-named fields; builder setters set like-named fields
     for acc_name in ("canonical_request_sha256", "credential", "signature", "request_timestamp", "session_token"):
         a = ctx.fn("auth::SigV4Authenticator::" + acc_name)
-        frs = {fs for _, fs in a.slice([0]).fieldreads}
-        if frs != {(acc_name,)}:
-            yield VIOL("C01-R6", "auth-accessor/" + acc_name, "accessor returns field(s) %s" % sorted(frs), where=loc(a.j["span"]))
+        pr_ = accessor_problems(a, acc_name)
+        if pr_:
+            yield VIOL("C01-R6", "auth-accessor/" + acc_name, "accessor does not hand back self.%s as stored: %s" % (acc_name, "; ".join(pr_)), where=loc(a.j["span"]))
         else:
             yield PASS("C01-R6", "auth-accessor/" + acc_name, "returns self.%s" % acc_name, [loc(a.j["span"])])
+    # the key used is the one the provider's response holds
+    a = ctx.fn("signing_key::GetSigningKeyResponse::signing_key")
+    pr_ = accessor_problems(a, "signing_key")
+    if pr_:
+        yield VIOL("C01-R6", "response-accessor/signing_key", "GetSigningKeyResponse::signing_key does not hand back self.signing_key as stored: %s" % "; ".join(pr_), where=loc(a.j["span"]))
+    else:
+        yield PASS("C01-R6", "response-accessor/signing_key", "returns self.signing_key", [loc(a.j["span"])])
 
 
 @M.rule("C01-R7", "entry point: single Ok behind validate_signature(..).await?; authenticator built from this request's canonical form")
@@ -670,3 +676,43 @@ def r9(ctx):
     for r in list(c10.r4(ctx)) + list(c11.r3(ctx)) + list(c11.r5(ctx)):
         r.rule = "C01-R9"
         yield r
+
+
+STAGES = [
+    # (function, is coroutine, consumer call, argument position, producer, the consumer takes one part of a tuple result)
+    ("canonical::CanonicalRequest::get_authenticator", False, r"CanonicalRequest::get_authenticator_from_auth_parameters$", 1, r"CanonicalRequest::get_auth_parameters$", False),
+    (ENTRY, True, r"CanonicalRequest::get_authenticator$", 0, r"CanonicalRequest::from_request_parts$", True),
+    (ENTRY, True, r"SigV4Authenticator::validate_signature$", 0, r"CanonicalRequest::get_authenticator$", False),
+    (GAFP, False, r"SigV4AuthenticatorBuilder::canonical_request_sha256$", 1, r"CanonicalRequest::canonical_request_sha256$", False),
+]
+
+
+@M.rule("C01-R10", "what one stage produces is what the next stage receives: no edit between the stages")
+def r10(ctx):
+    """The reviewed stages (canonical form -> authentication parameters -> authenticator -> verification) are checked one
+    by one; this rule pins the joints: the value a stage consumes is the previous stage's result moved there, never
+    modified in place or rebuilt on the way (a `trim()` of the timestamp text, a `retain` on the signed-header list or a
+    header removed from the canonical form between two stages changes what is verified without touching a stage)."""
+    for fn, is_co, consumer, pos, producer, part in STAGES:
+        b = ctx.co(fn) if is_co else ctx.fn(fn)
+        c = one(b.calls(consumer), "%s call in %s" % (consumer.strip("$").split("::")[-1], fn))
+        ctx.count()
+        key = "stage/%s->%s" % (producer.strip("$").split("::")[-1], consumer.strip("$").split("::")[-1])
+        ok, why = result_handed_on(b, c[1]["args"][pos], producer, allow_part=part)
+        if not ok:
+            yield VIOL("C01-R10", key, "argument %d of %s is not the result of %s as it was returned: %s" % (pos, consumer.strip("$").split("::")[-1], producer.strip("$").split("::")[-1], why), where=b.span_of_block(c[0]))
+        else:
+            yield PASS("C01-R10", key, "result moved on unmodified", [site(b, c[0], consumer.strip("$").split("::")[-1])])
+    # get_auth_parameters returns the carrier parser's AuthParams as it is
+    g = ctx.fn("canonical::CanonicalRequest::get_auth_parameters")
+    oks = result_aggs(g, "Ok")
+    ctx.count(max(1, len(oks)))
+    bad = []
+    for ob, i, s_ in oks:
+        ok, why = result_handed_on(g, s_["rv"]["ops"][0], r"CanonicalRequest::get_auth_parameters_from_(auth_header|query_parameters)$")
+        if not ok:
+            bad.append((ob, why))
+    if bad or not oks:
+        yield VIOL("C01-R10", "stage/carrier-parser->get_auth_parameters", "get_auth_parameters does not return the carrier parser's AuthParams as it is: %s" % (bad[0][1] if bad else "no Ok result"), where=g.span_of_block(bad[0][0]) if bad else loc(g.j["span"]))
+    else:
+        yield PASS("C01-R10", "stage/carrier-parser->get_auth_parameters", "Ok(params): params moved from the carrier parser's `?` result, not modified", [site(g, oks[0][0], "Ok")])
